@@ -1764,7 +1764,6 @@ namespace gch
         : is_uninitialized_memcpyable_iterator<U, V>
       { };
 
-#ifndef NDEBUG
       GCH_NORETURN
       static GCH_CPP20_CONSTEXPR
       void
@@ -1777,7 +1776,6 @@ namespace gch
         std::abort ();
 #endif
       }
-#endif
 
       static constexpr
       value_ty *
@@ -1842,10 +1840,8 @@ namespace gch
       {
         assert (0 <= (last - first) && "Invalid range.");
         const auto len = static_cast<std::size_t> (last - first);
-#ifndef NDEBUG
         if (numeric_max<size_ty> () < len)
           throw_range_length_error ();
-#endif
         return static_cast<size_ty> (len);
       }
 
@@ -1868,10 +1864,8 @@ namespace gch
 #endif
 
         const auto len = static_cast<std::size_t> (std::distance (first, last));
-#ifndef NDEBUG
         if (numeric_max<size_ty> () < len)
           throw_range_length_error ();
-#endif
         return static_cast<size_ty> (len);
       }
 
